@@ -1,11 +1,10 @@
 //! vh -- harness that runs the real altrios-core on generated cases and emits, per case, the
 //! Coq term evaluating the model on the same inputs, the implementation's outputs (bit-exact),
 //! generator tags, a replayable input and the verdicts of the property oracle.
-mod util;
-mod pt;
-mod c08;
-
-use util::*;
+//! Modules are discovered by build.rs: every src/cNN.rs must export
+//! `pub fn run(seed: u64, n: usize, sink: &mut util::Sink)`.
+#![allow(dead_code, unused_imports)]
+include!(concat!(env!("OUT_DIR"), "/mods.rs"));
 
 fn main() {
     let args: Vec<String> = std::env::args().collect();
@@ -23,11 +22,8 @@ fn main() {
     }
     // panics are caught per case; keep stderr quiet
     std::panic::set_hook(Box::new(|_| {}));
-    let mut sink = Sink::create(&out);
-    match prop.as_str() {
-        "c08" => c08::run(seed, n, &mut sink),
-        _ => { eprintln!("unknown property {}", prop); std::process::exit(2); }
-    }
+    let mut sink = util::Sink::create(&out);
+    if !dispatch(&prop, seed, n, &mut sink) { eprintln!("unknown property {}", prop); std::process::exit(2); }
     let n = sink.n;
     sink.finish();
     println!("cases {}", n);
